@@ -3,12 +3,18 @@
 import json, subprocess
 
 CHECKS = {
+ "C05": dict(category="model_checking", technique="exhaustive enumeration of all strings up to a length bound over a 7-symbol alphabet: product of the real comment stripper with a reference automaton",
+   text="Every string of length <=8 (thorough <=10) over {/,*,newline,a,blank,quote,2-byte char} goes through the real preprocess (hook H1) and the 3-state reference automaton written from the property text: both accept or both report an unterminated comment, output length equals input length, code bytes identical, comment bytes blank. The implementation reacts to (state, char class, next class) triples, all of which are reached by strings of length <=4 and continued by every 4-6 symbol suffix.",
+   note="Trusted: mc/src/refsem/lexer.rs (60 lines). Part (b), transparency through the whole pipeline, is reported in the same evidence file once built.", ref="5/C05"),
  "C12": dict(category="exploration", technique="bounded exhaustive enumeration of control-flow skeletons; structural invariants + dominance by definition on the real CFG",
    text="Every control-flow skeleton (if/if-else/while/for/blocks; bare, empty and braced bodies up to 4/5 statements, braced bodies up to 7/8 statements, nesting <=3) is lifted by the real into_cfg and into_ssa as function and as template; entry/reachability/mirror/branch-position/target/successor-count invariants, i dom j => i<=j with dominance by definition, the recorded loop depth against the loop nesting the generator recorded for each statement, and edge preservation by SSA are checked on every one.",
    note="Trusted: generator span recorder (mc/src/space/prog.rs), refsem/dom.rs. Skeletons beyond the statement bound are covered only by the small-scope argument.", ref="5/C12"),
  "C13": dict(category="model_checking", technique="exhaustive decision-string DFS (stateless, replay-from-prefix) walking the generator's structured program and the real CFG in lock-step",
    text="For every program of the skeleton space and every branch/loop decision string (loops unrolled <=2/3 times per entry) the statement sequence of the structured source (for = init/cond/body/step, compound assignments expanded, stop at first return) is compared with the sequence met on the real CFG under the same decisions, before and after SSA conversion. Exploration is on the implementation itself, so every trace is validated against it.",
    note="Trusted: the structural walker (mc/src/refsem/walk.rs) and span recorder. Paths beyond the unrolling bound are not explored.", ref="5/C13"),
+ "C14": dict(category="model_checking", technique="bounded exhaustive program enumeration + static SSA audit with dominance by definition + exhaustive path exploration of the real SSA graph tracking last-written versions",
+   text="Every skeleton <=3/4 statements x every assignment of a 9-atom alphabet (assign, self-update, copy, redeclare, array element updates, parameter read/write, uninitialised declaration) x conditions x initialised/uninitialised array is converted by the real into_ssa; a static audit checks single definition, phi placement, dominance of every read by its definition (dominators recomputed by definition), unversioned signals, declaration coverage; then every path (each block visited <= unroll+1 times) is walked keeping the version written last per variable: every read must name it and every phi must list the version current on the edge taken.",
+   note="Trusted: mc/src/props/c14.rs audit code, refsem/dom.rs. One open known finding (phi without argument for a path on which the variable is never assigned).", ref="5/C14"),
  "C15": dict(category="exploration", technique="bounded exhaustive enumeration of all rooted digraphs (n<=5 quick; n=6 up to 10 edges thorough) against dominance-by-definition",
    text="Every edge set on up to 5 nodes (thorough: 6 nodes, <=10 edges) whose nodes are all reachable from the entry is pushed through the real generic DominatorTree::new and compared, node by node, with dominators/idom/children/frontier computed from their definitions (node deletion + reachability). Exhaustive within the node bound, no isomorphism reduction; small-scope argument beyond it.",
    note="Trusted: the 60-line reference in mc/src/refsem/dom.rs. The 'randomly beyond the bound' clause is sampling and not done.", ref="5/C15"),
